@@ -626,6 +626,12 @@ func (u *pathUniverse) observeC15(st *pathState) (*core.Violation, bool) {
 		if viol != nil {
 			return
 		}
+		if len(m.D) == 0 && len(m.A) == 0 && path != "" && c.Path(".") == "" && c.Parent() == nil && len(c.FlattenedKeys()) == 0 {
+			// an empty container of the model may be a null setting of the implementation
+			// (nil and empty objects are considered equal): Child returns an empty config for
+			// it that is not part of the tree and says so
+			return
+		}
 		if got := c.Path("."); got != path {
 			viol = &core.Violation{Sub: "structure", Sig: "PATH " + nodeKind(m, path), Detail: fmt.Sprintf("node reached at %q reports Path()=%q", path, got)}
 			return
